@@ -62,7 +62,7 @@ func makePeerConnectionFromOffer(sdp *webrtc.SessionDescription,
 	// We have to wait for candidate gathering to complete
 	// before we send the offer
 	done := webrtc.GatheringCompletePromise(pc)
-	err = pc.SetRemoteDescription(*sdp)
+	err = util.SetRemoteDescription(pc, *sdp)
 	if err != nil {
 		if inerr := pc.Close(); inerr != nil {
 			log.Printf("unable to call pc.Close after pc.SetRemoteDescription with error: %v", inerr)
